@@ -396,7 +396,7 @@ struct static_array  // NOLINT(fuchsia-multiple-inheritance) : multiple inherita
 		if constexpr(! std::is_trivially_default_constructible_v<typename static_array::element_type>) {
 			construct_or_release_([&] { array_alloc::uninitialized_fill_n(this->base(), static_cast<typename multi::allocator_traits<allocator_type>::size_type>(this->num_elements()), elem); });
 		} else {  // this workaround allows constexpr arrays for simple types
-		                           adl_fill_n(this->base(), static_cast<typename multi::allocator_traits<allocator_type>::size_type>(this->num_elements()), elem);
+			construct_or_release_([&] { adl_fill_n(this->base(), static_cast<typename multi::allocator_traits<allocator_type>::size_type>(this->num_elements()), elem); });  // the assignment of such a type can still throw
 		}
 	}
 
@@ -406,7 +406,7 @@ struct static_array  // NOLINT(fuchsia-multiple-inheritance) : multiple inherita
 	: array_alloc{alloc}, ref(array_alloc::allocate(static_cast<typename multi::allocator_traits<allocator_type>::size_type>(typename static_array::layout_t(extension*value.extensions()).num_elements())), extension*value.extensions())
 	{
 		static_assert(std::is_trivially_default_constructible_v<typename static_array::element_type> || multi::force_element_trivial_default_construction<typename static_array::element_type> );  // TODO(correaa) not implemented for non-trivial types,
-		adl_fill_n(this->begin(), this->size(), value);  // TODO(correaa) implement via .elements()? substitute with uninitialized version of fill, uninitialized_fill_n?
+		construct_or_release_([&] { adl_fill_n(this->begin(), this->size(), value); });  // TODO(correaa) implement via .elements()? substitute with uninitialized version of fill, uninitialized_fill_n?
 	}
 
 	template<class ValueType, class = decltype(std::declval<ValueType>().extensions()),
